@@ -7,7 +7,9 @@
     after every clk(1), inside a simulator listener and inside a Waveform.
  B. Extreme stimulus on library composites (wide wires up to 64 bit, all-ones operands, negative and
     oversized pokes/constants), every reachable wire range-checked at every observation point.
- C. The traces recorded by the C05/C10 machinery carry every wire after every call; Trace_Kernel
+ C. WireAPI: TLC model of Wire.put / prepare / settle under script-driven behavioural drivers that hand arbitrary integers
+    to prepare() (0..MaxPrep times inside one clock call) and put(); one history per transition replayed on real Wires.
+ D. The traces recorded by the C05/C10 machinery carry every wire after every call; Trace_Kernel
     rejects any out-of-range value (clause "range").
 """
 import json
@@ -194,13 +196,123 @@ def part_b(run, rounds):
     run.note('extreme_stimulus_cycles', n)
 
 
+# ------------------------------------------------------------------ part C: the Wire API under script-driven drivers
+_BLOCKS = {}
+
+
+def script_blocks():
+    """behavioural drivers that hand arbitrary integers to Wire.prepare (several times per clock call) and Wire.put"""
+    if not _BLOCKS:
+        import py4hw
+
+        class ScriptSeq(py4hw.Logic):
+            def __init__(self, parent, name, q, scripts):
+                super().__init__(parent, name)
+                self.q = self.addOut('q', q)
+                self.scripts = scripts
+                self.i = 0
+
+            def clock(self):
+                if self.i < len(self.scripts):
+                    for v in self.scripts[self.i]:
+                        self.q.prepare(v)
+                self.i += 1
+
+        class TableComb(py4hw.Logic):
+            def __init__(self, parent, name, a, r, table):
+                super().__init__(parent, name)
+                self.a = self.addIn('a', a)
+                self.r = self.addOut('r', r)
+                self.table = table
+
+            def propagate(self):
+                self.r.put(self.table[self.a.get() % len(self.table)])      # index stays valid even if a is out of range
+        _BLOCKS['seq'] = ScriptSeq
+        _BLOCKS['comb'] = TableComb
+    return _BLOCKS['seq'], _BLOCKS['comb']
+
+
+def replay_wire(run, W, WR, table, hist, chunked):
+    import py4hw
+    ScriptSeq, TableComb = script_blocks()
+    with quiet():
+        hw = py4hw.HWSystem()
+        q = hw.wire('q', W)
+        r = hw.wire('r', WR)
+        ScriptSeq(hw, 'seq', q, [h['script'] for h in hist])
+        TableComb(hw, 'tab', q, r, table)
+        wv = py4hw.Waveform(hw, 'wv', [q, r])
+        sim = hw.getSimulator()
+        lis = Listener([q, r])
+        sim.addListener(lis)
+        obs = [('sim', [q.get(), r.get()])]
+        if chunked:
+            sim.clk(len(hist))
+            obs += [None] * (len(hist) - 1) + [('clk', [q.get(), r.get()])]
+        else:
+            for h in hist:
+                sim.clk(1)
+                obs.append(('clk', [q.get(), r.get()]))
+        seen = list(lis.seen)
+        d = wv.getDict()
+    exp = [[0, table[0] & ((1 << WR) - 1)]] + [[h['q'], h['r']] for h in hist]
+    case = {'W': W, 'WR': WR, 'table': table, 'scripts': [h['script'] for h in hist], 'one_call': chunked}
+    run.count()
+    run.nontrivial(json.dumps(case))
+    widths = [W, WR]
+    points = [(o[0], k, o[1]) for k, o in enumerate(obs) if o is not None]
+    points += [('listener', k + 1, s) for k, s in enumerate(seen)]
+    for where, k, vals in points:
+        for j, v in enumerate(vals):
+            if not in_range(v, widths[j]):
+                run.violation('C06:range:script-driver:%s' % where, {'case': case, 'cycle': k, 'wire': 'qr'[j], 'value': repr(v)},
+                              'wire %s of width %d holds %r after a driver prepared/put %s (%s, cycle %d)'
+                              % ('qr'[j], widths[j], v, case['scripts'][k - 1] if k else table[0], where, k))
+                return
+        if vals != exp[k]:
+            run.drift_note('WireAPI: real wires show %s, the model %s (scripts %s): functional difference of prepare/settle, '
+                           'judged by C05' % (vals, exp[k], case['scripts'][:k]))
+            return
+    for j, x in enumerate((q, r)):
+        for v in d[x]:
+            if not in_range(v, widths[j]):
+                run.violation('C06:range:script-driver:waveform', {'case': case, 'wire': 'qr'[j], 'value': repr(v)},
+                              'waveform recorded %r on %s' % (v, 'qr'[j]))
+                return
+
+
+def part_c(run, configs, maxprep, cycles):
+    for W, WR, vals in configs:
+        rng = random.Random(run.seed + W * 7 + WR)
+        table = [rng.choice(vals) for _ in range(1 << W)]
+        table[0] = vals[0]
+        n = [0]
+
+        def on(rec):
+            if rec[0] == 'W':
+                replay_wire(run, W, WR, table, rec[1], chunked=(n[0] % 3 == 2))
+                n[0] += 1
+        res = run_model('WireAPI', dict(W=W, WR=WR, Vals=set(vals), MaxPrep=maxprep, Table=table, MaxCycles=cycles),
+                        run.scratch / ('wire%d%d' % (W, WR)), invariants=['TypeOK'], view='View', timeout=1800, on_record=on)
+        if res.violated:
+            raise MachineryError('WireAPI: %s violated in the model' % res.violated)
+        run.add_tlc(res)
+        if n[0] == 0:
+            raise MachineryError('WireAPI emitted nothing')
+        run.cov['traces_validated_against_impl'] += n[0]
+    run.note('wire_api_histories', 'one per transition of WireAPI (state = q, r, cycle)')
+
+
 def check(run):
     if run.tier == 'quick':
         part_a(run, ALL_KINDS, [1, 2, 3], [-9, -5, -1, 0, 3, 9], [0, 1, 3, 5])
         part_b(run, 20)
+        part_c(run, [(1, 2, [-3, -1, 0, 1, 2, 5]), (2, 1, [-9, -4, -1, 0, 3, 4, 7, 260]), (3, 3, [-8, -1, 7, 8, 9, 1023])], 2, 3)
     else:
         part_a(run, ALL_KINDS, [1, 2, 3, 4], [-17, -9, -5, -1, 0, 2, 7, 12, 16], [0, 1, 2, 3, 5])
         part_b(run, 300)
+        part_c(run, [(1, 2, [-3, -1, 0, 1, 2, 5]), (2, 1, [-9, -4, -1, 0, 3, 4, 7, 260]), (3, 3, [-8, -1, 7, 8, 9, 1023]),
+                     (4, 2, [-17, -16, -1, 0, 15, 16, 31, 65535, -65536])], 3, 4)
     run.assumptions += ['exhaustive part at widths 1-3; composites up to 64 bit by seeded extreme stimulus',
                         'every wire reachable through Logic._wires and ports is observed']
 
